@@ -6,18 +6,54 @@ import "github.com/ohler55/slip"
 
 // Quote represents a list.
 type Quote struct {
-	child Node
-	wide  int
-	x     int
+	child  Node
+	prefix string
+	wide   int
+	x      int
 }
 
 func newQuote(obj slip.Object, p *slip.Printer) Node {
-	return &Quote{child: buildQNode(obj, p)}
+	return &Quote{child: buildQNode(obj, p), prefix: "'"}
+}
+
+// newPrefixed builds a node for the reader prefixes of a backquote template
+// (` , and ,@) so that the printed form reads back as the template.
+func newPrefixed(prefix string, obj slip.Object, p *slip.Printer) Node {
+	if prefix == "`" {
+		if list, ok := obj.(slip.List); ok && 0 < len(list) {
+			// The template is data except for the unquoted parts.
+			tl := &List{children: make([]Node, len(list))}
+			for i, v := range list {
+				tl.children[i] = buildTemplateNode(v, p)
+			}
+			return &Quote{child: tl, prefix: prefix}
+		}
+	}
+	return &Quote{child: buildNode(obj, p), prefix: prefix}
+}
+
+func buildTemplateNode(obj slip.Object, p *slip.Printer) Node {
+	switch to := obj.(type) {
+	case slip.List:
+		if 0 < len(to) {
+			tl := &List{children: make([]Node, len(to))}
+			for i, v := range to {
+				tl.children[i] = buildTemplateNode(v, p)
+			}
+			return tl
+		}
+	case slip.Funky:
+		switch to.GetName() {
+		case "comma", "comma-at", "quote", "backquote":
+			return buildNode(obj, p)
+		}
+	}
+	return buildQNode(obj, p)
 }
 
 func (q *Quote) layout(left int) (w int) {
 	q.x = left
-	w = q.child.layout(left+1) + 1
+	w = q.child.layout(left+len(q.prefix)) + len(q.prefix)
 	q.wide = w
 
 	return
@@ -25,13 +61,13 @@ func (q *Quote) layout(left int) (w int) {
 
 func (q *Quote) reorg(edge int) int {
 	if edge < q.right() {
-		q.wide = q.child.reorg(edge) + 1
+		q.wide = q.child.reorg(edge) + len(q.prefix)
 	}
 	return q.wide
 }
 
 func (q *Quote) adjoin(b []byte) []byte {
-	b = append(b, '\'')
+	b = append(b, q.prefix...)
 	return q.child.adjoin(b)
 }
 
